@@ -64,6 +64,17 @@ CHECKS["C16"] = dict(
     design="DESIGN.md section 3 / C16",
 )
 
+CHECKS["C17"] = dict(
+    technique="loop and recursion inventory over the call graph with structural termination arguments (worklist, parent walk, advancing index with non-nullable regex automata, structural descent, flag-bounded self-call, guarded reference walk); who-may-call lint for XML/file/network entry points",
+    text="Non-termination needs a loop or a call cycle; every one of them in the package is enumerated and must match a termination argument from a "
+         "closed list whose side conditions are checked on the syntax tree (pops and pushes of worklists, strict index progress on every path, "
+         "non-nullability of the token regexes, a visited set or a dominating cycle pre-check for every iterative reference walk). The single XML "
+         "entry point is hardened (resolve_entities=False) and nothing else parses XML, opens files or reaches the network; the gate raises.",
+    note="Not decided: running time proportional to the expanded document, memory growth. Recursive reference walks without cycle detection "
+         "(_resolve_clip_path, _apply_gradient_template) end in RecursionError - an exception, which the property allows (notes in the evidence).",
+    design="DESIGN.md section 3 / C17",
+)
+
 NOT_APPLICABLE = {}
 
 
